@@ -8,7 +8,7 @@ ID = "C10"
 RULE = (
     "Enumeration: every column 0..18277 (all names of <=3 letters) x rows {0,8,9,98,99,999,999999} x 4 '$' "
     "forms; every row 0..100000 (quick) / 0..1000000 (thorough) x columns {0,25,26,701,702,18277} x 4 '$' "
-    "forms; xl_range over the product of boundary corners plus Hypothesis-sampled corners; negatives. "
+    "forms; xl_range over the product of boundary corners, over every second corner within +-3 rows/columns of 70 first corners (in either order) and over Hypothesis-sampled corners; negatives. "
     "Oracle: independent shortlex/bijective-base-26 codec (vf/a1.py); encode==reference, decode(encode)==id "
     "for xl_cell_to_rowcol, xl_col_to_offset and the formula-range decoder (parse_numbers_range). "
     "Non-trivial: column >= 26 or row >= 9 (multi-letter name or multi-digit row); distinct by input tuple "
@@ -153,12 +153,21 @@ def run_task(ctx, lane, **kw):
         for r1, c1, r2, c2 in itertools.product(bounds_r, bounds_c, bounds_r, bounds_c):
             check_range(ctx, xrefs, r1, c1, r2, c2)
             ctx.nt_enum(1)
+        # corners that nearly coincide: every offset of the second corner within +-3 rows and columns of the first
+        for r1, c1 in itertools.product([0, 1, 3, 9, 500, 999_996, 999_999], [0, 1, 3, 25, 26, 27, 701, 702, 18274, 18277]):
+            for dr, dc in itertools.product(range(-3, 4), range(-3, 4)):
+                r2, c2 = r1 + dr, c1 + dc
+                if 0 <= r2 <= 999_999 and 0 <= c2 <= 18277:
+                    check_range(ctx, xrefs, r1, c1, r2, c2)
+                    ctx.nt_enum(1)
         from hypothesis import strategies as st
 
         rows = st.integers(0, 999_999) | st.sampled_from(bounds_r)
         cols = st.integers(0, 18277) | st.sampled_from(bounds_c)
         corner = st.tuples(rows, cols)
-        strat = st.tuples(corner, corner) | corner.map(lambda c: (c, c))
+        near = st.tuples(corner, st.integers(-4, 4), st.integers(-4, 4)).map(
+            lambda t: (t[0], (min(999_999, max(0, t[0][0] + t[1])), min(18277, max(0, t[0][1] + t[2])))))
+        strat = st.tuples(corner, corner) | corner.map(lambda c: (c, c)) | near
 
         def body(case):
             (r1, c1), (r2, c2) = case
